@@ -3,7 +3,7 @@
 #   run the suite (demo must fail, the 142 originals pass), revert the patch (everything passes)
 ID=$1; W=/tmp/seed_$ID; O=/tmp/seed_${ID}_out
 cd $W || exit 2
-git checkout -q -- . 2>/dev/null; git clean -fdq -e target 2>/dev/null
+git reset -q --hard HEAD; git clean -fdq -e target 2>/dev/null
 git apply $O/patch.diff && git apply $O/demo.diff || { echo "apply failed"; exit 2; }
 echo "== with change + demo"; cargo test --workspace --offline --no-fail-fast 2>&1 | grep -E "^test result|FAILED|failed" | awk '/test result/ {p+=$4; f+=$6} /FAILED|failed/ && !/test result/ {print} END {print "passed",p,"failed",f}' | tail -8
 git apply -R $O/patch.diff
